@@ -227,6 +227,10 @@ class Path:
                 t = e[2]
                 if not names or t.is_call(*names):
                     out.append(e)
+                else:
+                    nk = flow.into_to_from(t)        # canonical callee name (Into -> From, mem::take on an Option -> Option::take)
+                    if nk != t.ckey and any(nk == n or nk.endswith("::" + n) or nk.endswith(n) for n in names):
+                        out.append(e)
         return out
 
     def has_call(self, *names):
@@ -493,6 +497,8 @@ class Explorer:
             if inner is not None:
                 return _REL[ADAPTERS[v[1]][0]](inner)
         if v[0] == "call" and v[1].endswith(BRANCH):
+            if v[2] and v[2][0][0] == "errconv":
+                return {1}      # a value built by from_residual (an inner `?` that failed) is an error: Try::branch answers Break
             inner = self.known_variant(v[2][0], cons)
             if inner is not None and len(inner) == 1:
                 # Result: Ok(0)->Continue(0), Err(1)->Break(1); Option: Some(1)->Continue(0), None(0)->Break(1)
@@ -691,6 +697,8 @@ class Explorer:
                 self._scan_codes(p, rb, argv, short(ck))
                 if flow.is_transparent(t) and argv:
                     val = argv[0]
+                elif flow.lossless_cast(t) and len(argv) == 1:
+                    val = ("cast", argv[0], flow.lossless_cast(t))       # u64::from(x) is `x as u64`
                 elif ck.endswith(FROM_RESIDUAL) and argv and argv[0][0] == "residual":
                     val = ("errconv", argv[0][1])
                 else:
